@@ -169,6 +169,9 @@ def move_staticmethod_static_scope(source: str, preserve: Collection[str]) -> st
                 continue
             if not set(_decorators_of_type(funcdef, "staticmethod")):
                 continue
+            if any(core.walk(classdef, ast.Name(id=funcdef.name))):
+                # The class body refers to the method by its bare name, which only exists there
+                continue
             new_name = funcdef.name
             if not parsing.is_private(new_name):
                 new_name = f"_{new_name}"
